@@ -32,7 +32,8 @@ theorem prefix_nonce12 (r : Routine) (ps : PrefixSlices r) (pl : PreLabels12 r)
     (Mf : List Nat → List Region) (mf : MemFam Mf tp rk np ap nonce aad) (b0 : List Nat) (hb0 : b0.length = 32) (hm0 : s0.mem = Mf b0)
     (hrk : rk.length = 32) (hrkb : ∀ x ∈ rk, x < 2 ^ 32) (hn : nonce.length = 12) (hnb : ∀ x ∈ nonce, x < 2 ^ 8) (hnp : np + 16 < 2 ^ 63)
     (hab : ∀ x ∈ aad, x < 2 ^ 8) (hap : ap + aad.length < 2 ^ 63) (htp : tp + 32 < 2 ^ 63) :
-    ∃ s5 N, N ≤ 34 * (aad.length / 16) + 1400 ∧ Reach r 0 s0 1499 s5 N ∧ AfterPre Mf rk nonce aad (nonce ++ [0, 0, 0, 1]) np tp ap s5 := by
+    ∃ s5 N, N ≤ 34 * (aad.length / 16) + 1400 ∧ Reach r 0 s0 1499 s5 N ∧ AfterPre Mf rk nonce aad (nonce ++ [0, 0, 0, 1]) np tp ap s5 ∧
+      s5.frame = s0.frame := by
   obtain ⟨s1, r1, p1, e1, h19, g1, m1⟩ := phaseH r ps s0 hG hV hK rk np tp ap nonce aad e hrk hrkb
   obtain ⟨s2, r2, p2, e2, gc2, g2, m2⟩ := phaseGh r ps s1 rk np tp ap nonce aad p1 e1 h19 g1
   obtain ⟨s3, r3, p3, e3, gc3, g3, v14, v6, g36, m3⟩ := phaseJ0_12 r ps pl.lJ s2 rk np tp ap nonce aad p2 e2 _ gc2 g2 hn hnb hnp
@@ -46,11 +47,11 @@ theorem prefix_nonce12 (r : Routine) (ps : PrefixSlices r) (pl : PreLabels12 r)
       rcases h1 with rfl | rfl | rfl | rfl <;> decide
   obtain ⟨s4, r4, p4, e4, gc4, g4, v15, k14, k46, m4⟩ := phaseT r ps s3 rk np tp ap nonce aad p3 e3 _ gc3 g3 hrk hrkb _ hjb hjbb v6
   -- memory has not changed so far
-  have hm4 : s4.mem = Mf b0 := by rw [m4, m3, m2, m1]; exact hm0
+  have hm4 : s4.mem = Mf b0 := by rw [m4.1, m3.1, m2.1, m1.1]; exact hm0
   obtain ⟨s5, N, b5, hN, r5, m5, hb5, p5, e5, gc5, v21, lt21, g56, k5⟩ := phaseA r ps pl.lb pl.lc s4 rk np tp ap nonce aad p4 e4 _ gc4 Mf mf
     b0 hb0 hm4 0 (Or.inl rfl) (by rw [k46, g36]; rfl) htp hab hap
   refine ⟨s5, 549 + 79 + 15 + 530 + N, by omega, ((((r1.trans r2).trans r3).trans r4).trans r5).cast rfl rfl,
-    ⟨p5, e5, gc5, ?_, ?_, ?_, v21, lt21, ⟨b5, hb5, m5⟩, ?_⟩⟩
+    ⟨p5, e5, gc5, ?_, ?_, ?_, v21, lt21, ⟨b5, hb5, m5⟩, ?_⟩, by rw [k5.frame, m4.2, m3.2, m2.2, m1.2]⟩
   · rw [k5.g 15 (by decide)]; exact g4
   · rw [k5.v 14 (by decide), k14]; exact v14
   · rw [k5.v 15 (by decide)]; exact v15
